@@ -1,6 +1,7 @@
 open BinNums
 open BinPos
 open Datatypes
+open Decimal
 
 module N =
  struct
@@ -63,4 +64,16 @@ module N =
     match compare x y with
     | Gt -> false
     | _ -> true
+
+  (** val of_nat : nat -> coq_N **)
+
+  let of_nat = function
+  | O -> N0
+  | S n' -> Npos (Pos.of_succ_nat n')
+
+  (** val to_uint : coq_N -> uint **)
+
+  let to_uint = function
+  | N0 -> D0 Nil
+  | Npos p -> Pos.to_uint p
  end
